@@ -6,7 +6,7 @@ from harness import tie
 from harness import tie_explicit
 
 PID = "C48"
-TIE_IMPORTS = ("From LunaModel Require Import ConstGen ConstGen_proofs SsSetupDec SsSetupDec_proofs.\n")
+TIE_IMPORTS = ("From LunaModel Require Import ConstGen ConstGen_proofs SsSetupDec SsSetupDec_proofs SsDesc SsDesc_proofs.\n")
 
 
 # ------------------------------------------------------------------------------------------------
@@ -27,8 +27,54 @@ def mk_decoder(name):
     return t
 
 
+SMALL = [(1, 0, bytes([0x12, 0x34, 0x56, 0x78, 0x9A])),            # 5 bytes: one full word + 1 byte
+         (2, 0, bytes([1, 2, 3, 4, 5, 6, 7, 8])),                   # 8 bytes: two full words
+         (3, 1, bytes([0xEE, 0xFF, 0x11]))]                         # 3 bytes: a single partial word
+
+
+def _example_collection():
+    """the descriptors of examples/usb/superspeed/stream_in_device.py"""
+    from usb_protocol.emitters import SuperSpeedDeviceDescriptorCollection
+    descriptors = SuperSpeedDeviceDescriptorCollection()
+    with descriptors.DeviceDescriptor() as d:
+        d.idVendor = 0x1209; d.idProduct = 0x0001; d.bcdUSB = 3.2; d.bMaxPacketSize0 = 9
+        d.iManufacturer = "LUNA"; d.iProduct = "SuperSpeed Bulk Test"; d.iSerialNumber = "1234"
+        d.bNumConfigurations = 1
+    with descriptors.ConfigurationDescriptor() as c:
+        c.bMaxPower = 50
+        with c.InterfaceDescriptor() as i:
+            i.bInterfaceNumber = 0
+            with i.EndpointDescriptor(add_default_superspeed=True) as e:
+                e.bEndpointAddress = 0x81; e.wMaxPacketSize = 1024
+    return [(t, i, bytes(raw)) for t, i, raw in descriptors]
+
+
+def mk_handler(name, triples_fn):
+    def build():
+        from luna.gateware.usb.usb3.application.descriptor import GetDescriptorHandler
+        d = GetDescriptorHandler(triples_fn())
+        ins = [("value", d.value), ("length", d.length), ("start", d.start), ("tx_ready", d.tx.ready)]
+        outs = [("tx_valid", d.tx.valid), ("tx_first", d.tx.first), ("tx_last", d.tx.last), ("tx_payload", d.tx.payload),
+                ("tx_length", d.tx_length), ("stall", d.stall)]
+        return d, ins, outs
+    t = Target(name, build)
+    t.params = dict(kind="handler", triples=triples_fn())
+    return t
+
+
+def _coq_descs(triples):
+    return "[" + "; ".join(f"({(t << 8) | i}, cfg_of_bytes [{'; '.join(str(b) for b in raw)}] 4 false (Some 16))"
+                           for t, i, raw in triples) + "]"
+
+
+TWO = [SMALL[0], SMALL[2]]
+
+
 def targets(tier):
-    return [mk_decoder("setupdec")]
+    ts = [mk_decoder("setupdec"), mk_handler("desc_two", lambda: list(TWO)), mk_handler("desc_example", _example_collection)]
+    if tier != "quick":
+        ts.append(mk_handler("desc_small", lambda: list(SMALL)))
+    return ts
 
 
 # ------------------------------------------------------------------------------------------------
@@ -79,12 +125,50 @@ def traces(target, rng, tier):
             out.append([dict(valid=rng.choice([0, 0, 15, 15, 3, 7]), first=rng.getrandbits(1), last=rng.getrandbits(1),
                              data=rng.getrandbits(32), setup=rng.getrandbits(1), rx_good=int(rng.random() < 0.2),
                              rx_bad=int(rng.random() < 0.1)) for _ in range(rng.choice([5, 40, 120]))])
+    else:
+        triples = target.params["triples"]
+        keys = [(t << 8) | i for t, i, _ in triples]
+        lens = {(t << 8) | i: len(raw) for t, i, raw in triples}
+        def request(value, wlen, p_ready, extra):
+            tr = [dict(value=value, length=wlen, start=1, tx_ready=int(rng.random() < p_ready))]
+            n = (min(wlen, lens.get(value, 0)) + 3) // 4
+            for _ in range(int((n + 3) / max(p_ready, 0.2)) + extra):
+                tr.append(dict(value=value, length=wlen, start=0, tx_ready=int(rng.random() < p_ready)))
+            return tr
+        for k in range(12 if q else 80):          # request sequences within the environment
+            tr = [dict(value=0, length=0, start=0, tx_ready=1)] * rng.choice([0, 1, 2])
+            for _ in range(rng.choice([1, 2, 3])):
+                if rng.random() < 0.85:
+                    v = rng.choice(keys); L = lens[v]
+                    wlen = rng.choice([0, 1, 2, 3, 4, 5, 7, 8, 9, L - 1, L, L + 1, L + 3, 0xFFFF, rng.randrange(1, L + 2)])
+                else:
+                    v = rng.choice([0x0100 + 7, 0x0600, 0xFFFF, 0x0301 + 5]); wlen = rng.choice([0, 8, 64])
+                    while v in keys: v += 1
+                tr += request(v, max(0, wlen), rng.choice([1.0, 1.0, 0.7, 0.35]), rng.choice([4, 8]))
+            out.append(tr)
+        for k in range(3 if q else 20):            # outside the environment: value/length/start change at will
+            out.append([dict(value=rng.choice(keys + [0x0600]), length=rng.choice([0, 1, 4, 6, 9, 18, 0xFFFF]),
+                             start=int(rng.random() < 0.15), tx_ready=int(rng.random() < 0.7))
+                        for _ in range(rng.choice([20, 80]))])
     return out
 
 
 # ------------------------------------------------------------------------------------------------
 # obligations
 # ------------------------------------------------------------------------------------------------
+HD_ALPHA = "hd_alphabet [256; 769; 1536] [0; 2; 5; 9]"
+
+
+def defs_prelude(targets):
+    """Coq definitions shared by the obligations: the descriptor collections as terms"""
+    s = ""
+    for t in targets:
+        if t.params["kind"] == "handler":
+            s += f"Definition c48_{t.name} : list (N * cg_cfg) := {_coq_descs(t.params['triples'])}.\n"
+            s += f"Lemma c48_{t.name}_ok : hd_descs_ok c48_{t.name} = true. Proof. vm_compute. reflexivity. Qed.\n"
+    return s
+
+
 DEC_ALPHA = "sd_alphabet [2864434397; 305419896] [0; 3; 15]"      # data 0xAABBCCDD / 0x12345678; masks 0000 0011 1111
 
 
@@ -93,16 +177,44 @@ def obligations(targets, tier):
     for t in targets:
         if t.params["kind"] == "decoder":
             obs.append(tie_explicit.rlock_alpha(
-                f"ob_{t.name}", t, St="sd_st", mstep="sd_step true", enc="sd_enc", dec="sd_dec", wf="sd_wf",
+                f"ob_{t.name}", t, St="sde_st", mstep="sde_step true", enc="sde_enc", dec="sde_dec", wf="sde_wf",
+                dec_enc="sde_dec_enc", wf_step="sde_wf_step true", m0="(sd_init, E0)", wf_m0="apply sd_wf_init.",
+                alphabet=DEC_ALPHA, env="sde_env", fuel=100000,
+                describe="SuperSpeedSetupDecoder == property-satisfying decoder model on all packet-delivery histories (sd_env_ok) "
+                         "over two data words x valid masks {0000,0011,1111} x first/last/setup/rx_good/rx_bad"))
+            if tier != "quick": obs.append(tie_explicit.rlock_alpha(
+                f"ob_{t.name}_any", t, St="sd_st", mstep="sd_step true", enc="sd_enc", dec="sd_dec", wf="sd_wf",
                 dec_enc="sd_dec_enc", wf_step="sd_wf_step true", m0="sd_init", wf_m0="apply sd_wf_init.",
                 alphabet=DEC_ALPHA, fuel=100000,
-                describe="SuperSpeedSetupDecoder == property-satisfying decoder model on ALL traces (no environment assumption) "
-                         "over two data words x valid masks {0000,0011,1111} x every combination of first/last/setup/rx_good/rx_bad"))
+                describe="the same on ALL traces over the alphabet, no environment assumption (stronger than the property: "
+                         "behaviour on malformed deliveries agrees with the candidate patch)"))
             obs.append(tie.cmon(f"spec_{t.name}", t, mon="sd_mon", m0="0",
                                 describe="the word-accumulating specification evaluated over simulator traces (packets of 0..40 bytes, "
                                          "good / bad / aborted, with and without the setup flag; full-width data)"))
             obs.append(tie.corr(f"corr_{t.name}", t, mstep="sd_step true", m0="sd_init",
                                 describe="property-satisfying decoder model vs simulator, full-width data, also outside the environment"))
+        elif t.params["kind"] == "handler":
+            descs = _coq_descs(t.params["triples"])
+            if t.name == "desc_two":
+                n = len(t.params["triples"])
+                ob = tie_explicit.rlock_alpha(
+                    f"ob_{t.name}", t, St="hd_st", mstep=f"hd_step c48_{t.name}", enc="hd_enc", dec=f"hd_dec {n}",
+                    wf=f"hd_wf c48_{t.name}", dec_enc=f"(hd_dec_enc c48_{t.name} c48_{t.name}_ok)",
+                    wf_step=f"(hd_wf_step c48_{t.name} c48_{t.name}_ok)", m0=f"hd_init c48_{t.name}",
+                    wf_m0="apply hd_wf_init.", alphabet=HD_ALPHA, fuel=100000,
+                    describe="GetDescriptorHandler with a 5-byte and a 3-byte descriptor == handler model on ALL traces over "
+                             "value in {both keys, an unknown key} x wLength in {0,2,5,9} x start x tx.ready "
+                             "(no environment assumption: value/length/start may change mid-request)")
+                ob.defs = defs_prelude([t]) + ob.defs
+                obs.append(ob)
+            obs.append(tie.cmon(f"spec_{t.name}", t, mon=f"(hd_mon {descs})", m0="0",
+                                describe=f"{t.name}: request-level specification over simulator traces: the words handed over on tx are exactly "
+                                         "the beats of ConstGen.answer(descriptor, 0, wLength) with tx_length = min(wLength, len); "
+                                         "unknown (type,index): stall = start and nothing on tx"))
+            if not (tier == "quick" and t.name == "desc_two"):
+              obs.append(tie.corr(f"corr_{t.name}", t, mstep=f"hd_step {descs}", m0=f"hd_init {descs}",
+                                describe=f"{t.name}: handler model (specification generators + selection + output register) vs simulator, "
+                                         "also with value/length/start changing mid-request"))
     return obs
 
 
@@ -116,17 +228,98 @@ def tie_theorems(targets, tier):
 Theorem C48_{t.name} : forall tr, Forall (fun i => In i ob_{t.name}.alpha) tr -> sd_env_ok E0 tr = true ->
   run {G}.step {G}.init tr = run ssd_step ssd_init tr.
 Proof.
-  intros tr H HE. rewrite (ob_{t.name}_T.tie tr H (env_ok_true _ _ _ _)). apply sd_refines_from_reset. exact HE.
+  intros tr H HE. rewrite (ob_{t.name}_T.tie tr H).
+  - rewrite sde_run. apply sd_refines_from_reset. exact HE.
+  - rewrite sde_env_ok. exact HE.
+Qed.
+"""
+        elif t.params["kind"] == "handler":
+            triples = t.params["triples"]
+            checks = " && ".join(
+                f"desc_bytes_ok [{'; '.join(str(b) for b in raw)}] (n_range 1 {len(raw) + 4} ++ [65535])" for _, _, raw in triples)
+            s += f"""
+(* {t.name}: for every descriptor and every wLength in 1..len+4 and 65535, the bytes of the expected answer (valid bytes of
+   its words, little endian) are the first min(wLength, len) bytes of the descriptor; all configurations well-formed *)
+Theorem C48_{t.name}_bytes : ({checks}) = true /\\ hd_descs_ok {_coq_descs(triples)} = true.
+Proof. vm_compute. split; reflexivity. Qed.
+"""
+            if t.name == "desc_two":
+                s += f"""
+(* netlist of the handler: every GET_DESCRIPTOR request from reset over the alphabet is answered with exactly the expected words *)
+Theorem C48_{t.name} : forall v ml c r0 readys, v < 2 ^ 16 -> 0 < ml -> ml < 2 ^ 16 ->
+  sel_cfg c48_{t.name} v = Some c ->
+  let tr := hd_request v ml r0 readys in Forall (fun i => In i ob_{t.name}.alpha) tr ->
+  hd_xfers tr (run {G}.step {G}.init tr) ++ remaining c48_{t.name} v (run_state (hd_step c48_{t.name}) (hd_init c48_{t.name}) tr)
+  = hd_expected c ml.
+Proof.
+  intros v ml c r0 readys Hv Hm0 Hm Hs tr H. rewrite (ob_{t.name}_T.tie tr H (env_ok_true _ _ _ _)).
+  apply hd_request_from_reset; try assumption.
+  pose proof (hd_descs_ok_facts _ c48_{t.name}_ok) as Hf. clear - Hs Hf.
+  induction c48_{t.name} as [|[k c'] ds IH]; [discriminate|]. inversion Hf as [|? ? [Hc _] Hf']; subst.
+  cbn [sel_cfg] in Hs. destruct (v =? k); [inversion Hs; subst; exact Hc | apply IH; assumption].
 Qed.
 """
     return s
 
 
 def tie_theorem_names(targets, tier):
-    return [f"C48_{t.name}" for t in targets if t.params["kind"] == "decoder"]
+    names = []
+    for t in targets:
+        if t.params["kind"] == "decoder":
+            names.append(f"C48_{t.name}")
+        else:
+            names.append(f"C48_{t.name}_bytes")
+            if t.name == "desc_two":
+                names.append(f"C48_{t.name}")
+    return names
 
 
-ASSUMPTIONS = []
-LEVEL_TEXT = "work in progress"
-LEVEL_NOTE = ""
-TECHNIQUE = ""
+ASSUMPTIONS = [
+    "decoder environment sd_env_ok (data packets as the protocol layer delivers them): a packet is a run of words from a word with "
+    "`first` to a word with `last`; only the last word may have a partial byte-valid mask; after the last word exactly one of "
+    "rx_good / rx_bad arrives before the next packet starts, or rx_bad aborts the packet before its last word; a verdict without "
+    "payload words is allowed; a word and a verdict never share a cycle; the setup flag of the header is sampled with the first word",
+    "'exactly eight bytes' = exactly two words, both with all four byte-valid bits set, at the time rx_good arrives",
+    "descriptor handler environment of the stream theorems: `value` and `length` are held and `start` stays low from the cycle after "
+    "`start` until the answer has been handed over; the selected generator is idle and the tx register empty when `start` arrives "
+    "(true from reset and after a completed request); tx.ready is arbitrary; (type<<8|index) keys are distinct (a Python dict in /repo)",
+    "the expected answer is ConstGen.answer (C27's specification of ConstantStreamGenerator, closed form C27_answer_is_requested_slice: "
+    "ROM words in order, min(wLength, len) bytes in total, all words full but the last, first/last flags on the first/last word); "
+    "C48_descriptor_bytes proves, for every non-empty byte string and 0 < wLength, that the valid bytes of those words (little endian) "
+    "are the first min(wLength, len) descriptor bytes, for generators configured by ConstGen.cfg_of_bytes (C27's model of the Python "
+    "constructor: 4 bytes per ROM word); the same is re-evaluated for every descriptor of the tie collections (C48_<collection>_bytes)",
+    "the handler model is built on C27's SPECIFICATION of the generators (not on their code-shaped model); it is tied to the handler "
+    "netlist as a whole (lock-step at a two-descriptor collection, correspondence + request-level monitor at the collection of "
+    "examples/usb/superspeed/stream_in_device.py)",
+    "wLength = 0 sends nothing (C48_zero_length)",
+]
+
+LEVEL_TEXT = (
+    "Machine-checked proof, and a defect. DECODER: (1) C48_decoder_exact -- on every packet-delivery history of any length the "
+    "property-satisfying decoder model (the FSM of /repo with the candidate patch) has, cycle by cycle, the outputs of a specification that "
+    "merely accumulates the words of the current packet and reports, on rx_good, iff the header's setup flag is set and the packet consists "
+    "of exactly two full words, with those eight bytes as fields (simulation relation with a 'can this packet still be a setup packet' "
+    "predicate). The UNCHANGED code violates the property (confirmed on Amaranth's simulator, and as a Coq example inside the environment): "
+    "after a good setup-flagged packet of 4..7 bytes it stays in PARSE_SECOND across packet boundaries and then either reports a setup "
+    "packet glued from two different packets or drops a genuine one; ./check C48 exits 1 on the unchanged tree with an environment-"
+    "respecting replay and 0 with findings/C48-short-setup-packet.diff. Tie: the decoder netlist is proved equal to the model on all "
+    "packet-delivery histories over a data/mask alphabet (certified product reachability), giving netlist = specification. "
+    "DESCRIPTOR HANDLER: (2) C48_descriptor_stream(_any) -- for every descriptor collection, known (type,index), 0 < wLength < 2^16 and "
+    "every tx.ready pattern, the words handed over on tx followed by those still queued are exactly the beats of C27's specified answer "
+    "(first min(wLength,len) bytes, final valid mask = remaining bytes), each with tx_length = min(wLength, len) (C48_tx_length); "
+    "(4) wLength = 0 sends nothing; (5) an unknown (type,index) raises stall exactly with start and nothing appears on tx. Tie: handler "
+    "netlist == handler model on all traces at a two-descriptor collection (lock-step, no environment assumption), correspondence and a "
+    "request-level specification monitor at the example SuperSpeed collection; (3b) C48_descriptor_bytes: the valid bytes of the answer are "
+    "the first min(wLength,len) bytes of the descriptor, for all byte strings.")
+LEVEL_NOTE = (
+    "Trusted: Coq kernel + vm_compute, Amaranth elaboration, nir2coq.py/Netlist.v (validated each run against Amaranth's simulator). "
+    "The decoder tie is a theorem over two data words x masks {0000,0011,1111} x all control-bit combinations; full-width data by "
+    "correspondence and the specification monitor. The handler theorems are about a model whose generators are C27's specification "
+    "machines; generator code = that specification is C27's theorem about C27's hand model, and for the handler netlist it is re-established "
+    "only at the lock-step collection (5-byte and 3-byte descriptors, wLength in {0,2,5,9}) and sampled elsewhere. Delivery is stated as "
+    "'handed over ++ still queued = answer' (safety); that the queue drains under a fair tx.ready is not stated as a theorem (the examples "
+    "show it). That /repo's _get_initializer_value chunks the bytes as cfg_of_bytes does is validated by the ties, not proved. The defect needs a CRC-good setup-flagged data packet shorter than eight bytes, which a compliant host never sends.")
+TECHNIQUE = ("Rocq proof: simulation relation FSM -> packet-accumulating specification with a doomed-prefix predicate; stream invariant "
+             "'handed over ++ queued = answer' for the register stage over C27's generator specification; certified product-reachability "
+             "(lock-step, environment-restricted for the decoder) against netlists regenerated from source; simulator correspondence and "
+             "specification monitors; evaluated byte-level checks")
